@@ -30,7 +30,7 @@ func TestVerifC08(t *testing.T) {
 		Assumptions: []string{"allocation bound: bytes allocated by one decode call <= 64*len(input) + 1 MiB (affine; hostile counts are >= 2^20 so a count-driven make overshoots by >= 8 MiB)", "child processes run with RLIMIT_AS = 3 GiB so that an absurd allocation is a deterministic fatal error attributed through the journal"},
 		Units: func(tier vfTier, seed uint64) int {
 			if tier == vfThorough {
-				return len(vfGenKinds) * 12
+				return len(vfGenKinds) * 100
 			}
 			return len(vfGenKinds)
 		},
